@@ -101,7 +101,7 @@ Qed.
 Lemma keep_spec : forall input (r : fresult payload),
   keep input r = true ->
   r_text r <> [] /\ r_unit r = false /\ utf8_length (r_text r) <= 50
-  /\ trim (r_text r) <> trim input /\ has_c0 (r_text r) = false.
+  /\ trim (r_text r) <> trim input /\ has_ctl (r_text r) = false.
 Proof.
   intros input r H. unfold keep in H.
   apply negb_true_iff in H.
@@ -134,7 +134,7 @@ Lemma preview_output_ok_lemma : forall (p : prog) fire input c w r,
   r = empty_result default_payload
   \/ (snd (run fire p (mkst (disabled c) w 0)) = OOk r
       /\ r_text r <> [] /\ r_unit r = false /\ utf8_length (r_text r) <= 50
-      /\ trim (r_text r) <> trim input /\ has_c0 (r_text r) = false).
+      /\ trim (r_text r) <> trim input /\ has_ctl (r_text r) = false).
 Proof.
   intros p fire input c w r H.
   destruct (preview_output_lemma p fire input c w r H) as [E | [K R]].
@@ -155,8 +155,41 @@ Proof.
   - congruence.
 Qed.
 
-(* C0-free text has no LF/VT/FF/CR; the remaining Unicode line breaks are
-   exactly the known class *)
+(* text without control characters and without U+2028/9 has no line break *)
+Lemma ctl_not_linebreak : forall c,
+  is_control c || (c =? 8232) || (c =? 8233) = false -> is_line_break c = false.
+Proof.
+  intros c H. unfold is_control in H. unfold is_line_break.
+  apply orb_false_iff in H. destruct H as [H H3].
+  apply orb_false_iff in H. destruct H as [H H2].
+  apply orb_false_iff in H. destruct H as [H0 H1].
+  apply N.ltb_ge in H0. apply N.eqb_neq in H2. apply N.eqb_neq in H3.
+  assert (c < 127 \/ 159 < c) as R
+    by (apply andb_false_iff in H1; destruct H1 as [E|E]; apply N.leb_gt in E; lia).
+  destruct (c =? 133) eqn:E133; [apply N.eqb_eq in E133; lia|].
+  destruct (c =? 8232) eqn:E1; [apply N.eqb_eq in E1; lia|].
+  destruct (c =? 8233) eqn:E2; [apply N.eqb_eq in E2; lia|].
+  rewrite !orb_false_r. apply andb_false_iff. right. apply N.leb_gt. lia.
+Qed.
+
+Lemma ctl_free_single_line : forall s, has_ctl s = false -> single_line s = true.
+Proof.
+  unfold single_line, has_ctl.
+  induction s as [|c s IH]; cbn [existsb]; intros H; [reflexivity|].
+  apply orb_false_iff in H. destruct H as [H1 H2].
+  specialize (IH H2). apply negb_true_iff in IH.
+  apply negb_true_iff. apply orb_false_iff. split; [apply ctl_not_linebreak; exact H1 | exact IH].
+Qed.
+
+Lemma single_line_lemma : forall input (r : fresult payload),
+  keep input r = true -> single_line (r_text r) = true.
+Proof.
+  intros input r K. apply ctl_free_single_line.
+  exact (proj2 (proj2 (proj2 (proj2 (keep_spec input r K))))).
+Qed.
+
+(* the filter as it was: C0-free text has no LF/VT/FF/CR; the remaining
+   Unicode line breaks are exactly the class repaired in eacb46c *)
 Lemma c0_free_single_line : forall s,
   has_c0 s = false -> known_c13_linebreak s = false -> single_line s = true.
 Proof.
@@ -175,11 +208,12 @@ Proof.
   apply andb_false_iff. right. apply N.leb_gt. lia.
 Qed.
 
-Lemma single_line_except_known_lemma : forall input (r : fresult payload),
-  keep input r = true -> known_c13_linebreak (r_text r) = false -> single_line (r_text r) = true.
+Lemma single_line_old_except_known_lemma : forall input (r : fresult payload),
+  keep_old input r = true -> known_c13_linebreak (r_text r) = false -> single_line (r_text r) = true.
 Proof.
   intros input r K H. apply c0_free_single_line; [|exact H].
-  exact (proj2 (proj2 (proj2 (proj2 (keep_spec input r K))))).
+  unfold keep_old in K. apply negb_true_iff in K.
+  apply orb_false_iff in K. destruct K as [_ K]. exact K.
 Qed.
 
 End PreviewProofs.
@@ -217,6 +251,6 @@ Proof.
   exists Witness.crashes, Witness.ctx0, (0, 0). vm_compute. discriminate.
 Qed.
 
-Lemma single_line_refuted_lemma :
-  exists input (r : fresult unit), keep input r = true /\ single_line (r_text r) = false.
+Lemma single_line_old_refuted_lemma :
+  exists input (r : fresult unit), keep_old input r = true /\ single_line (r_text r) = false.
 Proof. exists [49], (mkres [133; 97] false tt). vm_compute. auto. Qed.
